@@ -563,7 +563,7 @@ func c03ReportBuilder(c *Ctx) {
 		r.Unknown("C03.L4", "conforms", p.Pos(build.Pos()), "no value stored under the report node's conforms key was found")
 	}
 	for _, st := range stores["conforms"] {
-		x, ok, empty := symCond{st.val, false}.Emptiness()
+		x, ok, empty := symCond{Cond: st.val}.Emptiness()
 		key, isBucket := bucketKey(x)
 		okc := ok && empty && isBucket && key == "violation"
 		why := "conforms is not computed as `the violation bucket is empty`: " + st.val.String()
